@@ -262,6 +262,7 @@ KeyOnlyFromCanonical ==
 (* inductively for histories of any length (Lifecycle.tla, Apalache).      *)
 (* ---------------------------------------------------------------------- *)
 LIds == 1..MaxInst
+LMaxScal == 100000          \* scalar tokens of the skeleton: 1 + x for the toy groups' x < q < 100000
 LC == INSTANCE Lifecycle WITH
         NIds     <- MaxInst,
         alive    <- [i \in LIds |-> i <= Len(st)],
@@ -274,7 +275,9 @@ LC == INSTANCE Lifecycle WITH
         nkey     <- [i \in LIds |-> IF i <= Len(st) THEN aux[i].nkey ELSE 0],
         entropy  <- [i \in LIds |-> IF i <= Len(st) THEN aux[i].entropy ELSE 0],
         origin   <- [i \in LIds |-> IF i <= Len(st) THEN aux[i].origin ELSE 0],
-        saved    <- {d.by : d \in disk}
+        saved    <- {d.by : d \in disk},
+        NScal    <- LMaxScal,
+        scal     <- [i \in LIds |-> IF i <= Len(st) /\ st[i].hasx THEN 1 + (NToInt(st[i].x) % LMaxScal) ELSE 0]
 RefinesLifecycle == LC!StepOK
 LifecycleInv == LC!IndInv
 =============================================================================
